@@ -145,6 +145,25 @@ def handleJson (op : String) (j : Json) : Option (Except String Json) :=
   | "json_of_table" => some do
     let t ← jsTableValOfJson (← j.getObjVal? "table")
     pure (excOrJVal (Pdt.Json.ofTable t))
+  | "json_of_table_obs" => some do
+    -- columns carry the observed elements of `list(df[col])` as PVal
+    let t ← j.getObjVal? "table"
+    let name ← getStr t "name"
+    let dests ← (← getArr t "destinations").mapM fun d => do pure (← d.getStr?).toList
+    let cols ← (← getArr t "columns").mapM fun c => do
+      let vals ← (← getArr c "values").mapM pvalOfJson
+      pure ((← getStr c "name"), (← getStr c "unit"), vals)
+    pure (excOrJVal (Pdt.Json.toJsonSerializable (Pdt.Json.tablePValObs name dests cols)))
+  | "json_of_precursor_obs" => some do
+    -- columns carry the observed numpy array (or list) of the real precursor as PVal; zip(names, units) as the code does
+    let t ← j.getObjVal? "precursor"
+    let name ← getStr t "name"
+    let dests ← (← getArr t "destinations").mapM fun d => do pure (← d.getStr?).toList
+    let names ← (← getArr t "names").mapM fun d => do pure (← d.getStr?).toList
+    let units ← (← getArr t "units").mapM fun d => do pure (← d.getStr?).toList
+    let vals ← (← getArr t "columns").mapM pvalOfJson
+    pure (excOrJVal (Pdt.Json.toJsonSerializable
+      (Pdt.Json.precursorPValObs name (names.zip (units.zip vals)) dests)))
   | "json_to_grid" => some do
     let v ← jvalOfJson (← j.getObjVal? "j")
     let fi ← fiOfJson j
@@ -162,10 +181,14 @@ def handleJson (op : String) (j : Json) : Option (Except String Json) :=
     let v ← jvalOfJson (← j.getObjVal? "j")
     pure (Json.bool (Pdt.Json.dumpsStrictOk v))
   | "parse_blocks_json" => some do
+    -- `to` travels as text and is looked up by the model (`formOf`); an unknown one is answered as the exception
     let rows ← rowsOfJson (← j.getObjVal? "rows")
-    let cfg ← configOfJson j
+    let to ← getStr j "to"
+    let cfg ← configOfJson (j.setObjVal! "to" (Json.str "pdtable"))
     let f ← fixerOfJson (← j.getObjVal? "fixer")
-    let r := parseBlocks cfg rows f
+    match Pdt.Json.parseBlocksStr cfg to rows f with
+    | .rejected e => pure (exc (excName e))
+    | .running r =>
     pure (Json.mkObj [
       ("blocks", arr (r.blocks.map fun d =>
         Json.mkObj [("ty", Json.str (btString d.ty)), ("first", nat d.first), ("val", blockValToJsonJ d.val)])),
